@@ -230,3 +230,129 @@ def run_c18(tier, seed):
     chk.assumptions = ["each key is used with one data type; no expiry; SET is used without NX/XX/GET options except where listed; ZADD without option flags",
                        "scores are decimal literals exactly representable in binary64"]
     chk.finish()
+
+# ------------------------------------------------------------------------------------------ C12
+DERIVED_CMDS = ["PING", "ECHO", "MSET", "MSETNX", "MGET", "APPEND", "INCR", "DECR", "INCRBY", "DECRBY", "STRLEN", "GETRANGE", "SUBSTR", "HMSET", "HMGET", "HEXISTS", "HKEYS", "HVALS",
+                "HLEN", "HSTRLEN", "SCARD", "SISMEMBER", "ZCARD", "ZREVRANGE", "ZREVRANGEBYSCORE", "CONFIG"]
+
+def prog_case(prog, probe_reqs, desc):
+    reqs = list(prog) + list(probe_reqs)
+    data = b"".join(RB(n, a) for n, a in reqs)
+    return dict(reqs=reqs, nprog=len(prog), ty="derived", line=L.mkcase([(0, "f" + L.hx(data)), (0, "e")], handler="example", trace=False), desc=desc[:400])
+
+def c12_random_request(rng):
+    name = rng.choice(DERIVED_CMDS + ["SET", "HSET", "SADD", "ZADD", "DEL", "RPUSH"])
+    sk = lambda: rng.choice([b"s1", b"s2", b"n1"]); v = lambda: rng.choice([b"a", b"", b"10", b"-3", b"x\r\ny", b"9223372036854775807", b"abc", b"007"])
+    if name == "PING": return name, ([] if rng.random() < 0.5 else [v()])
+    if name == "ECHO": return name, [v()]
+    if name in ("MSET", "MSETNX"):
+        a = []
+        for _ in range(rng.randint(1, 3)): a += [sk(), v()]
+        return name, a
+    if name == "MGET": return name, [rng.choice([b"s1", b"s2", b"n1", b"nokey"]) for _ in range(rng.randint(1, 4))]
+    if name in ("APPEND", "SET"): return name, [sk(), v()]
+    if name in ("INCR", "DECR", "STRLEN"): return name, [sk()]
+    if name in ("INCRBY", "DECRBY"): return name, [sk(), rng.choice([b"1", b"-1", b"5", b"9223372036854775807", b"-9223372036854775808", b"9223372036854775806", b"0"])]
+    if name in ("GETRANGE", "SUBSTR"): return name, [sk(), str(rng.randint(-9, 9)).encode(), str(rng.randint(-9, 9)).encode()]
+    f = lambda: rng.choice([b"f1", b"f2", b"", b"f3"])
+    if name == "HMSET":
+        a = [b"h1"]
+        for _ in range(rng.randint(1, 3)): a += [f(), v()]
+        return name, a
+    if name == "HSET": return name, [b"h1", f(), v()]
+    if name == "HMGET": return name, [b"h1"] + [f() for _ in range(rng.randint(1, 4))]
+    if name in ("HEXISTS", "HSTRLEN"): return name, [rng.choice([b"h1", b"nokey"]), f()]
+    if name in ("HKEYS", "HVALS", "HLEN"): return name, [rng.choice([b"h1", b"nokey"])]
+    m = lambda: rng.choice([b"a", b"b", b"c", b""])
+    if name == "SADD": return name, [b"t1"] + [m() for _ in range(rng.randint(1, 3))]
+    if name == "SCARD": return name, [rng.choice([b"t1", b"nokey"])]
+    if name == "SISMEMBER": return name, [rng.choice([b"t1", b"nokey"]), m()]
+    if name == "ZADD":
+        a = [b"z1"]
+        for _ in range(rng.randint(1, 3)): a += [rng.choice([b"1", b"2", b"1.5", b"-1", b"3"]), m()]
+        return name, a
+    if name == "ZCARD": return name, [rng.choice([b"z1", b"nokey"])]
+    if name == "ZREVRANGE":
+        a = [b"z1", str(rng.randint(-7, 7)).encode(), str(rng.randint(-7, 7)).encode()]
+        return name, a + ([b"WITHSCORES"] if rng.random() < 0.5 else [])
+    if name == "ZREVRANGEBYSCORE":
+        a = [b"z1", rng.choice([b"+inf", b"3", b"(2", b"2"]), rng.choice([b"-inf", b"1", b"(1", b"0"])]
+        if rng.random() < 0.5: a.append(b"WITHSCORES")
+        if rng.random() < 0.6: a += [b"LIMIT", str(rng.randint(-1, 5)).encode(), str(rng.randint(-1, 5)).encode()]
+        return name, a
+    if name == "CONFIG":
+        if rng.random() < 0.5: return name, [b"SET", rng.choice([b"maxmemory", b"x", b"y"]), v()]
+        return name, [b"GET"] + [rng.choice([b"maxmemory", b"x", b"y", b"nope"]) for _ in range(rng.randint(1, 3))]
+    if name == "DEL": return name, [rng.choice([b"s1", b"h1", b"t1", b"z1", b"n1"])]
+    if name == "RPUSH": return name, [b"l1", v()]
+    return "PING", []
+
+C12_PROBES = [("GET", [b"s1"]), ("GET", [b"s2"]), ("GET", [b"n1"]), ("HGETALL", [b"h1"]), ("SMEMBERS", [b"t1"]), ("ZRANGE", [b"z1", b"0", b"-1", b"WITHSCORES"]), ("KEYS", [b"*"])]
+
+def run_c12(tier, seed):
+    chk = Check("C12", tier, seed)
+    broken = prep(chk, "C12")
+    rng = random.Random(seed)
+    cases = []
+    grid = dict(getrange=0, zrevrange=0, zrevrangebyscore=0, counters=0, random=0)
+    # GETRANGE / SUBSTR: lengths 0..6 x start, end in -9..9 — exhaustive; and on a missing key
+    for ln in list(range(0, 7)) + [None]:
+        val = bytes(b"abcdef"[:ln]) if ln is not None else None
+        for cmd in ("GETRANGE", "SUBSTR"):
+            prog = ([("SET", [b"s1", val])] if val is not None else []) + [(cmd, [b"s1", str(a).encode(), str(b).encode()]) for a in range(-9, 10) for b in range(-9, 10)]
+            cases.append(prog_case(prog, [("GET", [b"s1"])], "%s on a value of length %s, start,end in -9..9 (361 requests)" % (cmd, ln)))
+            grid["getrange"] += 361
+    # ZREVRANGE: sizes 0..5 x start, stop in -7..7, with and without scores — exhaustive
+    for n in range(0, 6):
+        setup = [("ZADD", [b"z1"] + [x for i in range(n) for x in (str(i + 1).encode(), b"m%d" % i)])] if n else []
+        for ws in ([], [b"WITHSCORES"]):
+            prog = setup + [("ZREVRANGE", [b"z1", str(a).encode(), str(b).encode()] + ws) for a in range(-7, 8) for b in range(-7, 8)]
+            cases.append(prog_case(prog, [("ZRANGE", [b"z1", b"0", b"-1", b"WITHSCORES"])], "ZREVRANGE on %d members, start,stop in -7..7 %s (225 requests)" % (n, "WITHSCORES" if ws else "")))
+            grid["zrevrange"] += 225
+        # ZREVRANGEBYSCORE: ranges x LIMIT offset 0..n+2 x count -1..n+1 x scores
+        for ws in ([], [b"WITHSCORES"]):
+            prog = list(setup)
+            for mx, mn in [(b"+inf", b"-inf"), (b"3", b"2"), (b"(3", b"(1"), (b"1", b"5")]:
+                prog.append(("ZREVRANGEBYSCORE", [b"z1", mx, mn] + ws))
+                for off in range(-1, n + 3):
+                    for cnt in range(-1, n + 2):
+                        prog.append(("ZREVRANGEBYSCORE", [b"z1", mx, mn] + ws + [b"LIMIT", str(off).encode(), str(cnt).encode()]))
+            grid["zrevrangebyscore"] += len(prog) - len(setup)
+            cases.append(prog_case(prog, [], "ZREVRANGEBYSCORE on %d members, 4 ranges x LIMIT grid %s" % (n, "WITHSCORES" if ws else "")))
+    # counters at the int64 boundaries and on non-integers
+    STARTS = [None, b"0", b"10", b"-1", b"9223372036854775807", b"-9223372036854775808", b"9223372036854775806", b"-9223372036854775807", b"abc", b"", b" 1", b"1.0", b"+5", b"007", b"-0", b"1e3",
+              b"9223372036854775808", b"-9223372036854775809"]
+    DELTAS = [b"1", b"-1", b"0", b"2", b"9223372036854775807", b"-9223372036854775808", b"-9223372036854775807", b"9223372036854775806"]
+    for st in STARTS:
+        prog = []
+        for op in [("INCR", []), ("DECR", [])] + [("INCRBY", [d]) for d in DELTAS] + [("DECRBY", [d]) for d in DELTAS]:
+            prog += ([("SET", [b"n1", st])] if st is not None else [("DEL", [b"n1"])]) + [(op[0], [b"n1"] + op[1]), ("GET", [b"n1"])]
+        cases.append(prog_case(prog, [], "counters from %r: INCR DECR INCRBY/DECRBY x %d deltas" % (st, len(DELTAS))))
+        grid["counters"] += len(prog) // 3
+    # random programs over all derived commands, with a final-state probe
+    for _ in range(400 if tier == "quick" else 8000):
+        prog = [c12_random_request(rng) for _ in range(rng.randint(1, 25))]
+        cases.append(prog_case(prog, C12_PROBES, " ; ".join(req_desc(n, a) for n, a in prog)))
+        grid["random"] += 1
+    good = run_cases(chk, cases)
+    validated, distinct = 0, set()
+    for c in good:
+        if not basic_monitors(chk, "C12", c):
+            continue
+        if not compare_program(chk, "C12", c):
+            continue
+        validated += 1
+        distinct.add(c["desc"])
+    if broken and not chk.violations:
+        chk.violation("proof-broken", broken, dict(broken=broken, theorem="GRP.C12"), True)
+    chk.coverage.update(
+        evaluations=sum(len(c["reqs"]) for c in cases), distinct_nontrivial=len(distinct), exhaustive=True,
+        rule="the framework's own and derived commands run on the bundled example store (primitive operations) through the real connection loop, against the same executors over the Redis "
+             "reference primitives in the model: GETRANGE and SUBSTR for value lengths 0..6 and a missing key x start,end in -9..9 (exhaustive); ZREVRANGE for 0..5 members x start,stop in "
+             "-7..7 with and without scores (exhaustive); ZREVRANGEBYSCORE for 4 ranges x LIMIT offset -1..n+2 x count -1..n+1; INCR/DECR/INCRBY/DECRBY from %d starting values (int64 "
+             "limits, non-integers, non-canonical numerals, missing key) x %d deltas, each followed by GET; random programs of 1..25 requests over all %d derived commands with a final-state "
+             "probe; evaluations = requests; non-trivial = distinct program" % (len(STARTS), len(DELTAS), len(DERIVED_CMDS)),
+        traces_validated_against_impl=validated, input_distribution=grid,
+        samples=[c["desc"][:200] for c in cases[::max(1, len(cases) // 6)]][:6])
+    chk.assumptions = ["the primitive operations are the bundled example store's, shown by C18 to behave like the reference on this domain"]
+    chk.finish()
